@@ -126,6 +126,25 @@ def gen_cases(ctx):
                         c["reflect"] = [1, 0.4, 0.2]
                     c["translate"] = [1.0, 2.0, -3.0]
                 cases.append(c)
+    # ---- input forms of the material data: the same material given homogeneous / per element / per Gauss
+    #      point, Voigt / Kelvin-Mandel, with rotated material axes, must give the same moved solution
+    for form in ("per-element", "per-Gauss-point"):
+        for law, p in ((laws[3], None), (laws[1], None), (laws[0], None)):
+            name, par = law
+            if quick and name == "iso" and form == "per-Gauss-point":
+                continue
+            c = {"kind": "elastic", "dim": 2, "elemType": rng.choice(["TRI3", "QUAD4"]), "law": name, "F": F3(), "form": form,
+                 "ps": False, "voigt": rng.random() < 0.5}
+            c.update(par)
+            if name == "aniso":
+                C = par["C"]
+                c["C"] = [[(C[i][j] + C[j][i]) / 2 for j in range(3)] for i in range(3)]
+            if name != "iso":
+                import math
+                th = rng.uniform(0.3, 2.8)
+                c["axes"] = [[math.cos(th), math.sin(th), 0], [-math.sin(th), math.cos(th), 0]]
+            c.update(tr())
+            cases.append(c)
     # ---- both ways of building the moved problem: "coords" (coordinates transformed directly) and
     #      "api" (mesh.Symmetry / Rotate / Translate on a copy), with position-dependent Dirichlet
     #      values and boundary tractions / fluxes given as callables on the moved mesh
@@ -180,6 +199,15 @@ def gen_cases(ctx):
                           "F": [300.0, -800.0, 250.0], "M": [1500.0, -2500.0, 4000.0],
                           "reflect": [round(rng.uniform(0.2, 1), 2), round(rng.uniform(-1, 1), 2), round(rng.uniform(-1, 1), 2)],
                           "angle": round(rng.uniform(5, 355), 1), "axis": [0.2, -0.4, 1.0]})
+        # EXACT rotations by 180 / 90 degrees and exact mirror images: members lying exactly on a coordinate
+        # axis (all other coordinates exactly 0), pointing towards -x / -y
+        for dim_ in (2, 3):
+            cases.append({"kind": "beam", "dim": dim_, "timo": timo, "elemType": "SEG3" if timo else "SEG2", "points": [[0, 0, 0], [120.0, 0, 0]],
+                          "F": [300.0, -800.0, 0.0 if dim_ == 2 else 250.0], "M": [0, 0, 4000.0], "angle": 180.0, "axis": [0, 0, 1], "exact": True})
+        cases.append({"kind": "beam", "dim": 2, "timo": timo, "elemType": "SEG3", "points": [[0, 0, 0], [120.0, 0, 0]],
+                      "F": [300.0, -800.0, 0.0], "M": [0, 0, 4000.0], "angle": rng.choice([90.0, 270.0]), "axis": [0, 0, 1], "exact": True})
+        cases.append({"kind": "beam", "dim": 2, "timo": timo, "elemType": "SEG3", "points": [[0, 0, 0], [100.0, 0, 0], [100.0, 80.0, 0]],
+                      "F": [300.0, -800.0, 0.0], "M": [0, 0, 4000.0], "reflect": [1, 0, 0], "exact": True})
         # rotated L-frame with a tip moment (proper rotation)
         cases.append({"kind": "beam", "dim": 2, "timo": timo, "elemType": "SEG3", "points": shapes2[1], "F": [300.0, -800.0, 0.0], "M": [0, 0, 5000.0],
                       "angle": round(rng.uniform(5, 355), 1)})
@@ -227,6 +255,8 @@ def classify(c, r, beam):
         key = "mesh-motion:Mesh.%s" % step
     elif c.get("pressure") and c.get("reflect"):
         key = "pressure-reflected-mesh:Get_normals"
+    elif c["kind"] == "beam" and c.get("exact") and len(c.get("points", [])) == 2 and c.get("angle") == 180.0:
+        key = "beam-on-x-axis-towards-minus-x:inDim"
     elif c["kind"] == "beam" and beam is not None and not beam["block_transposed"]:
         key = "beam-local-global:_Compute_P_e_pg"
     elif c["kind"] == "beam" and c.get("reflect") and not c.get("angle"):
@@ -264,7 +294,7 @@ def correspondence(ctx, beam, holder):
     for c, r in zip(cases, res):
         cls, moved, key = classify(c, r, beam)
         tag = cls + ":" + moved + (":" + c["build"] if "build" in c else "") + (":field-loads" if c.get("loads") == "field" else "") + (":pressure" if c.get("pressure") else "") \
-            + (":moment" if c.get("M") else "") + (":frame" if len(c.get("points", [])) > 2 else "") + (":dynamic-step" if c.get("dynamic") else "")
+            + (":" + c["form"] if c.get("form") else "") + (":exact" if c.get("exact") else "") + (":moment" if c.get("M") else "") + (":frame" if len(c.get("points", [])) > 2 else "") + (":dynamic-step" if c.get("dynamic") else "")
         dist[tag] = dist.get(tag, 0) + 1
         ctx.note_case(None if c["kind"] == "Bcheck" else "%s:%s:%s" % (tag, c.get("elemType"), c.get("angle")))
         if "raises" in r:
